@@ -2319,7 +2319,7 @@ theorem Inv.resolveConst {σ : State} {T : List V} (inv : Inv σ T) : ∀ (steps
           obtain ⟨b, hb, _⟩ := inv.wf.live _ hin id rfl
           simp only [hb]
           cases hi : b.items[i]? with
-          | none => left; exact ⟨_, rfl, rfl⟩
+          | none => right; exact ⟨V.none, rfl, Or.inl rfl⟩
           | some kv =>
             right
             exact ⟨kv.2, rfl, Held.of_mem_block hb (List.mem_map_of_mem (List.mem_of_getElem? hi))⟩
@@ -3275,7 +3275,7 @@ theorem Inv.resolveConstLoc {σ : State} {T : List V} (inv : Inv σ T) : ∀ (st
           obtain ⟨b, hb, _⟩ := inv.wf.live _ hin id rfl
           simp only [hb]
           cases hi : b.items[i]? with
-          | none => left; exact ⟨_, rfl, rfl⟩
+          | none => right; exact ⟨none, V.none, rfl, Or.inl rfl⟩
           | some kv =>
             right
             exact ⟨_, kv.2, rfl, Held.of_mem_block hb (List.mem_map_of_mem (List.mem_of_getElem? hi))⟩
